@@ -171,7 +171,11 @@ func FamilyShape(thorough bool, seed int64) []*Conv {
 	// depth 2
 	for _, c1 := range ctors {
 		for _, c2 := range ctors {
-			for _, ln := range []string{"int", "string", "named"} {
+			leaves := []string{"int", "string", "named"}
+			if c2.Name == "arr" || c2.Name == "slice" {
+				leaves = append(leaves, "uint8") // byte sequences invite special-cased copies
+			}
+			for _, ln := range leaves {
 				s := c1.F(g, c2.F(g, g.leaf(ln)))
 				out = append(out, shapeConv("shape", s, nextFormat(), nil, nil))
 			}
@@ -206,6 +210,15 @@ func FamilyShape(thorough bool, seed int64) []*Conv {
 		{"rec_in_struct", "type PFXRL2 []PFXRL2\ntype PFXRM2 []PFXRM2\ntype PFXRS struct {\n\tKids PFXRL2\n\tN int\n}\ntype PFXRT struct {\n\tKids PFXRM2\n\tN int\n}", "PFXRS", "PFXRT"},
 	} {
 		out = append(out, shapeConv("shape", shape{Src: rc.src, Tgt: rc.tgt, Name: rc.name, Decls: []string{rc.decl}}, nextFormat(), nil, nil))
+	}
+	// more nested loops in one method than there are single-letter index names
+	for _, ds := range []struct {
+		name, src string
+		spine     int
+	}{{"deep_slices_21", strings.Repeat("[]", 21) + "int", 18}, {"deep_slices_19_map", strings.Repeat("[]", 19) + "map[string][]int", 17}, {"deep_slices_18", strings.Repeat("[]", 18) + "int", 15}} {
+		cv := shapeConv("shape", shape{Src: ds.src, Tgt: ds.src, Name: ds.name}, nextFormat(), nil, nil)
+		cv.Bounds = &Bounds{MaxSlice: 2, MaxMap: 1, RecDepth: 1, Spine: ds.spine}
+		out = append(out, cv)
 	}
 	// basic kinds never change silently: a target of another kind (named or not, at any position) is rejected
 	for _, km := range []struct{ name, src, tgt, decl string }{
